@@ -162,12 +162,13 @@ TBAll == {<<>>, <<"a">>, <<"b">>, <<"a", "b">>, <<"b", "a">>}
 AllOps == {"add", "enter", "exit", "setfilter", "copy", "report"}
 F1 == {<<E1, 1>>}
 F2 == {<<E1, 1>>, <<E2, 2>>}
+F3 == {<<E1, 2>>}
 S1 == [file |-> 1, line |-> 2, col |-> 1, method |-> "g", tb |-> <<"a">>]
 
 Base == [name |-> "", names |-> {E1}, files |-> {1}, lines |-> {1}, cols |-> {0}, methods |-> {"f"},
          msgs |-> {"m1"}, dets |-> {""}, tbs |-> {<<>>}, sevs |-> {2}, sevByName |-> FALSE,
          filters |-> {{}}, stacks |-> {}, ops |-> {"add"}, maxNest |-> 0, maxOps |-> 3,
-         twoPhase |-> FALSE]
+         distinct |-> FALSE, twoPhase |-> FALSE]
 
 (* The report is a function of the log and the driver asks for it after EVERY step, so the      *)
 (* families about P2 need only Add; maxOps = length of the histories (Extra = 0: quick tier).  *)
@@ -179,9 +180,11 @@ Family(n) ==
                       !.tbs = {<<>>, <<"b", "a">>}, !.maxOps = 3 + Extra]
     [] n = "sev" ->        \* the severity is not part of the unique representation
          [Base EXCEPT !.name = n, !.tbs = {<<>>, <<"a">>}, !.sevs = {1, 2}, !.maxOps = 4 + Extra]
-    [] n = "maxtb" ->      \* antichains of more than MaxTB tracebacks, replaced ones among them
-         [Base EXCEPT !.name = n, !.tbs = {<<"a", "c">>, <<"b", "c">>, <<"d">>, <<"x">>, <<"c">>},
-                      !.maxOps = 4 + Extra]
+    [] n = "maxtb" ->      \* antichains of more than MaxTB tracebacks, replaced ones among them:
+                           \* every order of pairwise different errors of one group
+         [Base EXCEPT !.name = n, !.distinct = TRUE, !.maxOps = 5 + Extra,
+                      !.tbs = {<<"a", "c">>, <<"b", "c">>, <<"d">>, <<"x">>, <<"c">>}
+                              \cup (IF Extra > 0 THEN {<<>>, <<"x", "d">>} ELSE {})]
     [] n = "nopos" ->      \* errors without a file: line 0 has no position at all
          [Base EXCEPT !.name = n, !.files = {0}, !.lines = {0, 1}, !.cols = {0, 1},
                       !.methods = {"", "f"}, !.maxOps = 2 + Extra]
@@ -191,14 +194,17 @@ Family(n) ==
          [Base EXCEPT !.name = n, !.names = {E1, E2}, !.sevs = {1, 2}, !.sevByName = TRUE,
                       !.filters = {{}, F1}, !.stacks = {NoStack, S1}, !.maxNest = 3,
                       !.ops = {"add", "enter", "exit", "setfilter", "copy"}, !.maxOps = 5 + Extra]
+    [] n = "copy" ->       \* copy_from: inside other checkpoints, filtered at the new position
+         [Base EXCEPT !.name = n, !.dets = {"d1"}, !.filters = {{}, F3}, !.stacks = {S1}, !.maxNest = 2,
+                      !.ops = {"add", "enter", "exit", "setfilter", "copy"}, !.maxOps = 7 + Extra]
     [] n = "all" ->        \* every operation
          [Base EXCEPT !.name = n, !.names = {E1, E2}, !.sevs = {1, 2}, !.sevByName = TRUE,
                       !.lines = {1, 2}, !.filters = {{}, F2}, !.stacks = {S1}, !.maxNest = 2,
                       !.ops = AllOps, !.maxOps = 3 + Extra]
     [] n = "sim" ->        \* long random histories (tlc -simulate), the full alphabet
          [Base EXCEPT !.name = n, !.names = {E1, E2}, !.sevs = {1, 2}, !.sevByName = TRUE,
-                      !.files = {0, 1}, !.lines = {1, 2}, !.cols = {0, 1}, !.tbs = TBAll,
-                      !.filters = {{}, F1, F2}, !.stacks = {NoStack, S1}, !.maxNest = 3,
+                      !.files = {0, 1}, !.lines = {1, 2}, !.cols = {0, 1}, !.dets = {"", "d1"},
+                      !.tbs = TBAll, !.filters = {{}, F1, F2}, !.stacks = {NoStack, S1}, !.maxNest = 3,
                       !.ops = AllOps, !.maxOps = 14 + Extra, !.twoPhase = TRUE]
     [] n = "simtb" ->      \* long random histories inside one group: overflow, replacement
          [Base EXCEPT !.name = n, !.sevs = {1, 2},
@@ -290,7 +296,8 @@ KindEnabled(kd) ==
   \/ kd = "copy" /\ fam.stacks # {} /\ \E j \in DOMAIN closed : closed[j].cap # <<>>
   \/ kd = "report" /\ ~rep.set
 Do(kd) ==
-  \/ kd = "add" /\ \E e \in ErrorsOf(fam) : Add(e)
+  \/ kd = "add" /\ \E e \in ErrorsOf(fam) :
+                      (fam.distinct => (\A x \in DOMAIN log : log[x] # e)) /\ Add(e)
   \/ kd = "enter" /\ Len(cps) < fam.maxNest /\ Enter
   \/ kd = "exit" /\ Exit
   \/ kd = "setfilter" /\ \E F \in fam.filters : F # filter /\ SetFilter(F)
